@@ -405,6 +405,29 @@ pub fn pgn_step_contract() {
     vcover!(i == 16, "ninth move number reachable");
 }
 
+/// C20 diagram cell (slice verif_display_cell): for every board and every (i, j) the two diagram
+/// loops can produce, the character handed to `write!` is the glyph of the piece standing on rank
+/// i+1, file j (white outlined U+2654.., black filled U+265A.., order K Q R B N P), a blank iff the
+/// square is empty -- i.e. the cell depicts square (i, j) of *this* game and no other square
+#[cfg_attr(kani, kani::proof)]
+#[cfg_attr(verif_replay, test)]
+pub fn display_cell_contract() {
+    let g = mk::sym_game_nocache(0);
+    let i = nd::i8_in(0, 7);
+    let j = nd::i8_in(0, 7);
+    let got = g.verif_display_cell(i, j) as u32;
+    let c = adapt::board_of(&g)[(i as usize) * 8 + j as usize];
+    #[cfg(not(kani))]
+    eprintln!("board: {}  cell rank {} file {}: engine shows U+{:X}", adapt::show_view(&adapt::view_of(&g)), i + 1, j, got);
+    let want: u32 = if c == spec::EMPTY { ' ' as u32 } else {
+        let off = match spec::kind(c) { 6 => 0, 5 => 1, 4 => 2, 3 => 3, 2 => 4, _ => 5 };
+        (if spec::is_white(c) { 0x2654 } else { 0x265A }) + off
+    };
+    assert!(got == want, "C20: diagram cell does not show the content of its square");
+    vcover!(c != spec::EMPTY && !spec::is_white(c) && i == 7 && j == 0, "black piece on a8 reachable");
+    vcover!(c == spec::EMPTY, "empty square reachable");
+}
+
 /// native (test): `show` output (Display for Game) and the move record on a game with captures,
 /// castling, e.p. and all four promotion pieces: Hash / Fen / PGN lines agree with the game, the
 /// diagram shows rank 8 first with the glyph of every square, the record names what was played
